@@ -112,6 +112,7 @@ pub struct MsgObs {
     pub recv_data_calls: usize,
     /// the call in progress: "resolve" | "recv_response" | "recv_data" | "recv_trailers" | "send_response" | "send_data" | "finish" | "done"
     pub stage: String,
+    pub stream_id: Option<u64>,
 }
 
 pub type Shared<T> = std::rc::Rc<std::cell::RefCell<T>>;
@@ -125,7 +126,11 @@ pub async fn server_handler(
     out: Shared<MsgObs>,
     respond: bool,
 ) {
-    out.borrow_mut().stage = "resolve".into();
+    {
+        let mut o = out.borrow_mut();
+        o.stage = "resolve".into();
+        o.stream_id = Some(resolver.frame_stream.id().into_inner());
+    }
     let (req, mut stream) = match resolver.resolve_request().await {
         Ok(x) => x,
         Err(e) => {
